@@ -215,6 +215,7 @@ fn free_stress(ctx: &mut Ctx, prop: &'static str, classes: &'static [&'static st
         case.dup_edges = r.gen_bool(0.3);
         case.spaced = r.gen_bool(0.2);
         case.no_tail = r.gen_bool(0.25);
+        case.same_prefix = r.gen_bool(0.25);
         case.stale_ext = matches!(case.mode, Mode::InMemoryBuild) && r.gen_bool(0.5);
         if r.gen_bool(0.2) {
             case.prior = Some((mask, r.gen_range(1..(1u64 << n))));
@@ -449,6 +450,9 @@ fn run_c02(ctx: &mut Ctx) {
                         if style == 0 && k % 5 == 3 && case.stale && !case.outside && !case.subdirs {
                             case.stale_link = true;
                         }
+                        if k % 6 == 2 && !case.after_only && case.slow_ms == 0 {
+                            case.same_prefix = true;
+                        }
                         if matches!(case.mode, Mode::InMemoryBuild) && k % 15 == 5 && !case.markers {
                             case.empty_leaves = true;
                             case.stale = k % 30 == 5;
@@ -594,6 +598,7 @@ fn digraph_enumeration(ctx: &mut Ctx, prop: &'static str, classes: &'static [&'s
                     // pending at end of file must still count (cycle detection, ordering)
                     case.no_tail = style != 9 && k % 4 == 2;
                     case.spaced = style != 9 && k % 5 == 4;
+                    case.same_prefix = style != 9 && style != 8 && k % 6 == 1;
                     if style == 4 && k % 3 == 1 {
                         // the requested directory holds only symbolic links to the sources
                         case.linked = true;
